@@ -25,7 +25,7 @@ type Config struct {
 	QueryTimeout  int
 	AllowLeak     bool
 	UnwindLabel   string // when set, exhausting the loop/instruction budget is a violation with this label (non-termination)
-	IntMode       bool // integer-with-wrap solver encoding (constant multipliers/divisors only)
+	IntMode       bool   // integer-with-wrap solver encoding (constant multipliers/divisors only)
 	Params        map[string]int
 }
 
@@ -52,26 +52,26 @@ type frame struct {
 
 // Interp executes one path.
 type Interp struct {
-	prog     *ssa.Program
-	st       *Store
-	sol      *Solver
-	ps       *pathState
-	cfg      *Config
-	globals  map[*ssa.Global]*Cell
-	nextCell int
-	nextID   int
-	stats    stats
-	out      *Outcome
-	cur      *frame
-	natives  map[string]nativeFn
-	varCount map[string]int
-	sentinel map[string]Value
-	co       *sched
-	ext      map[string]interface{} // per-path scratch for natives
-	world    *World
-	observes  []obsRec
-	concrete  map[string]uint64
-	growExact bool
+	prog       *ssa.Program
+	st         *Store
+	sol        *Solver
+	ps         *pathState
+	cfg        *Config
+	globals    map[*ssa.Global]*Cell
+	nextCell   int
+	nextID     int
+	stats      stats
+	out        *Outcome
+	cur        *frame
+	natives    map[string]nativeFn
+	varCount   map[string]int
+	sentinel   map[string]Value
+	co         *sched
+	ext        map[string]interface{} // per-path scratch for natives
+	world      *World
+	observes   []obsRec
+	concrete   map[string]uint64
+	growExact  bool
 	constCache map[*ssa.Const]Value
 	strCache   map[string]StrV
 	bounds     map[*Term]*ival
